@@ -11,6 +11,7 @@ import os
 import subprocess
 import sys
 import time
+import re
 
 from . import verus as V
 from . import kani as K
@@ -162,6 +163,8 @@ def run_property(prop, tier, seed):
     rewrite_counts = {}
     stubs = []
     named_asserts = set()
+    undecided_units = []
+    fallback_runs = []
 
     for r in sorted(results, key=lambda x: x.get("unit", x.get("harness", ""))):
         if r.get("backend") == "kani":
@@ -175,6 +178,7 @@ def run_property(prop, tier, seed):
         unit = unit_objs.get(uname)
         if r["status"] == "undecided":
             undecided.append("%s: %s" % (uname, r["reason"]))
+            undecided_units.append((uname, r))
             if unit is None:
                 continue
         if unit is None:
@@ -240,8 +244,11 @@ def run_property(prop, tier, seed):
                 cl = info["clauses"].get(f["label"])
                 if cl is None and not f["label"].startswith("safety"):
                     named_asserts.add((fid, f["label"]))
+                ltoks = [t for t in re.match(r"((?:C\d\d-)*)", f["label"]).group(1).split("-") if t]
                 if cl is not None and cl.props:
                     props = cl.props
+                elif cl is None and ltoks:      # a named assertion carries its properties in its label
+                    props = set(ltoks) | set(info["props"])
                 else:   # a failed safety condition / invariant leaves every clause of the function unproved
                     props = set(info["props"]).union(*[set(c.props or []) for c in info["clauses"].values()])
                 if prop not in props:
@@ -260,6 +267,25 @@ def run_property(prop, tier, seed):
                 lab = sorted(info["clauses"])[0]
                 samples.append({"obligation": "%s/%s#%s" % (uname, fid, lab),
                                 "clause": info["clauses"][lab].expr[:300]})
+
+    # ---------------------------------------------------------------- bounded fallback
+    # A unit that could not be extracted / type-checked (the code was restructured beyond the rewrite
+    # catalogue) is UNDECIDED for the proof.  Its contracts' executable forms are then evaluated on the
+    # real code over a finite family of inputs (bounded stand-in): a failing input found there is a
+    # violation with a replayable witness; finding none leaves the unit undecided (never "proved").
+    fallback_violations = []
+    for (uname, r) in undecided_units:
+        for (routine, rprops, what) in getattr(reg, "FALLBACK", {}).get(uname, []):
+            if prop not in rprops:
+                continue
+            from . import witness
+            d = witness.run_routine(routine.split()[0], routine.split()[1:])
+            fallback_runs.append({"unit": uname, "routine": routine, "what": what, "found": bool(d.get("found")),
+                                  "observed": d.get("clause", d.get("error", ""))})
+            if d.get("found"):
+                d["replay_cmd"] = "%s %s" % (witness.BIN, d.get("rerun", "replay " + routine).split(" ", 1)[1])
+                d["note"] = "the unit could not be extracted (%s); input found by the bounded fallback on the real code" % r.get("reason", "")[:200]
+                fallback_violations.append(("%s/#bounded-fallback:%s" % (uname, routine.split()[0]), d, r, what))
 
     # ---------------------------------------------------------------- report
     rc = 0
@@ -301,6 +327,19 @@ def run_property(prop, tier, seed):
         tail = "" if witness and witness.get("found") else " no-failing-input-found"
         lines.append("VIOLATION property=%s replay=%s obligation=%s%s" % (prop, rp, obid, tail))
         rc = 1
+    for (obid, d, r, what) in fallback_violations:
+        if obid in seen:
+            continue
+        seen.add(obid)
+        safe = obid.replace("/", "-").replace("::", ".").replace("#", "-").replace(":", "_")
+        rp = os.path.join(replay_dir, "%s-%s.json" % (prop, safe))
+        with open(rp, "w") as fh:
+            json.dump({"property": prop, "obligation": obid, "function": None, "clause": what,
+                       "message": "bounded fallback found a failing input on the real code",
+                       "detail": r.get("reason"), "verifier_output": "", "backend": "replay (bounded)",
+                       "witness": d, "repo_rev": repo_rev()}, fh, indent=1)
+        lines.append("VIOLATION property=%s replay=%s obligation=%s" % (prop, rp, obid))
+        rc = 1
     if rc == 0 and undecided:
         rc = 2
     for u in undecided:
@@ -329,6 +368,7 @@ def run_property(prop, tier, seed):
         "known_findings_printed": [o for (o, _, _) in known_hits],
         "known_findings_replayed": known_replayed,
         "bounded_stand_ins": bounded,
+        "bounded_fallback_runs": fallback_runs,
         "undecided": undecided,
         "repo_rev": repo_rev(),
     }
